@@ -373,23 +373,38 @@ def textexec(run, fx):
                             prob = '%s: %d character(s) appended but the segment counts are set to %r / %r' % (desc, k, seg[PG + 'm_numCharinfo'], seg[PG + 'm_numGlyphs'])
                             break
                         # ill-formed text: the iterator recovers -- one U+FFFD per offending unit -- and the loop still runs to the NUL or nChars
-                        steps, i_ = [], 0
+                        steps, svals, i_ = [], [], 0
                         ul = list(units)
                         while i_ < len(ul):
                             u_ = ul[i_]
-                            if w == 32 or u_ < 0xD800 or u_ > 0xDFFF:
+                            if w == 32:
                                 steps.append(i_)
+                                svals.append(u_ if u_ < 0x110000 else 0xFFFD)
+                                i_ += 1
+                            elif u_ < 0xD800 or u_ > 0xDFFF:
+                                steps.append(i_)
+                                svals.append(u_)
                                 i_ += 1
                             elif u_ <= 0xDBFF and i_ + 1 < len(ul) and 0xDC00 <= ul[i_ + 1] <= 0xDFFF:
                                 steps.append(i_)
+                                svals.append(0x10000 + ((u_ - 0xD800) << 10) + (ul[i_ + 1] - 0xDC00))
                                 i_ += 2
                             else:
                                 steps.append(i_)
+                                svals.append(0xFFFD)
                                 i_ += 1
                         if parse(w, ul) is None and (k != min(nchars, len(steps)) or offs != steps[:k]):
                             prob = ('%s: the text holds %d character(s) before the NUL, an ill-formed unit counting as one (U+FFFD); the loop appended %d at offsets %s, expected %d at %s -- it neither ran '
                                     'to the NUL nor to nChars' % (desc, len(steps), k, offs, min(nchars, len(steps)), steps[:min(nchars, len(steps))]))
                             break
+                        if parse(w, ul) is None:
+                            gotv = [(c_[1].v if isinstance(c_[1], O.Lz) else c_[1]) for c_ in calls]
+                            if gotv != svals[:k]:
+                                j_ = [x != y for x, y in zip(gotv, svals)].index(True)
+                                prob = ('%s: character %d (code unit %d) is %s; the ill-formed unit there stands for U+FFFD and nothing else -- gr_cinfo_unicode_char reports a value that is '
+                                        'not a scalar value, and the same text given in another encoding shapes differently' % (desc, j_, offs[j_], ('U+%04X' % gotv[j_]) if isinstance(gotv[j_], int) else repr(gotv[j_]))
+                                        if svals[j_] == 0xFFFD else '%s: character %d is %r, expected U+%04X' % (desc, j_, gotv[j_], svals[j_]))
+                                break
                         wf = parse(w, list(units))
                         if wf is not None:
                             want = wf[:nchars]
